@@ -447,6 +447,9 @@ def parse_stmt(s: str) -> Stmt:
 FN_RE = re.compile(r'^fn (.*?)\((.*)\) -> (.*) \{$')
 
 
+SIMPLE_CONSTS = {}
+
+
 def parse_mir(text: str) -> Dict[str, List[Func]]:
     funcs: Dict[str, List[Func]] = {}
     lines = text.split('\n')
@@ -469,10 +472,13 @@ def parse_mir(text: str) -> Dict[str, List[Func]]:
                 m = re.match(r'_(\d+): (.*)$', a)
                 args.append((int(m.group(1)), m.group(2)))
             hdr = (name, args, ret)
-        elif ln.startswith('const ') and ln.endswith('= {') and 'promoted[' in ln:
+        elif ln.startswith('const ') and ln.endswith('= {'):
             m = re.match(r'const (.*): (.*) = \{$', ln)
             hdr = (m.group(1), [], m.group(2))
         if hdr is None:
+            mc = re.match(r'const (.*?): (.*?) = const (.*);$', ln)
+            if mc:
+                SIMPLE_CONSTS[mc.group(1).split('::')[-1]] = mc.group(3)
             i += 1
             continue
         start = i
